@@ -106,6 +106,9 @@ class Scanner(object):
                 value = match.group()
                 self.pos = match.end()
                 # print '->', value
+                if self.lineno is not None:
+                    # a token (e.g. a .bst string literal) may span lines
+                    self.update_lineno(value)
                 return Token(value, pattern)
 
     def optional(self, patterns, allow_eof=False):
